@@ -200,6 +200,100 @@ def check_tbt_protocol(ctx, tbt):
                       not problems, "; ".join(sorted(set(problems))), examined=len(finals), construct=f"{REAL}:TestByTestResult.{m}::protocol details={'given' if given else 'absent'}")
 
 
+ETOD_LACKS_26 = {("d", "addSkip"), ("d", "addExpectedFailure"), ("d", "addUnexpectedSuccess")}
+T_, D_, E_, R_, CONV_ = ("arg", "test"), ("arg", "details"), ("arg", "err"), ("arg", "reason"), ("converted-exc-info",)
+
+
+def _etod_expected(m, level, mode):
+    """(target method, positional kinds, has details kw) of the single accepted delivery."""
+    if m in ("addError", "addFailure"):
+        if mode == "details":
+            return (m, [T_], True) if level == "extended" else (m, [T_, CONV_], False)
+        return (m, [T_, E_], False)
+    if m == "addExpectedFailure":
+        if level == "py26":
+            return ("addSuccess", [T_], False)
+        if mode == "details":
+            return (m, [T_], True) if level == "extended" else (m, [T_, CONV_], False)
+        return (m, [T_, E_], False)
+    if m == "addSkip":
+        if level == "py26":
+            return ("addSuccess", [T_], False)
+        if mode == "details":
+            return (m, [T_], True) if level == "extended" else (m, [T_, "?"], False)
+        return (m, [T_, R_], False)
+    if m == "addUnexpectedSuccess":
+        if level == "py26":
+            return ("addFailure", [T_, "?"], False)
+        return (m, [T_], mode == "details" and level == "extended")
+    return ("addSuccess", [T_], mode == "details" and level == "extended")
+
+
+def check_etod_semantics(ctx, etod):
+    from .. import effects
+    classes = ctx.classes
+    for m in OUTCOMES:
+        f = etod.methods.get(m)
+        if f is None:
+            raise AnalysisError(f"anchor vanished: ExtendedToOriginalDecorator.{m}")
+        params = [a.arg for a in f.args.args][1:]
+        for level in ("extended", "py27", "py26"):
+            for mode in ("details", "plain"):
+                if mode == "plain" and m in ("addSuccess", "addUnexpectedSuccess") and level == "extended":
+                    pass
+                argv = {"test": T_}
+                if "details" in params:
+                    argv["details"] = D_ if mode == "details" else "None"
+                if "err" in params:
+                    argv["err"] = "None" if mode == "details" else E_
+                if "reason" in params:
+                    argv["reason"] = "None" if mode == "details" else R_
+
+                def oracle(name, pos, kw, level=level):
+                    if not name.startswith("d."):
+                        return None
+                    if level != "extended" and any(k == "details" for k, _ in kw):
+                        return [("exc", ("exc", "TypeError"))]
+                    return [("val", ("ret", name))]
+
+                dom = effects.EffectDomain(classes, attrs={"self.decorated": ("wobj", "d"), "self.failfast": "False", "self._failfast": "False"},
+                                           lacks=ETOD_LACKS_26 if level == "py26" else (), oracle=oracle,
+                                           results={"self._details_to_exc_info": [CONV_], "test.fail": []}, raises={"test.fail": [("exc", "failureException")]},
+                                           track=lambda d: False)
+                res = effects.run(ctx, dom, f, etod, argv)
+                want_m, want_pos, want_details = _etod_expected(m, level, mode)
+                problems = set()
+                n_ret = 0
+                for r in res:
+                    deliveries = [e for e in effects.calls(r) if e[0].startswith("d.add")]
+                    accepted = [e for e in deliveries if e[3] == "ok"]
+                    rejected = [e for e in deliveries if e[3] != "ok"]
+                    if r.kind != "val":
+                        if len(accepted) >= 1 and r.value == ("exc", "TypeError"):
+                            problems.add("a TypeError escapes after the outcome was already delivered")
+                        elif r.value == ("exc", "TypeError"):
+                            problems.add("the target's TypeError (it does not take details=) escapes instead of being degraded")
+                        continue
+                    n_ret += 1
+                    if len(accepted) != 1:
+                        problems.add(f"a returning path makes {len(accepted)} accepted deliveries ({[e[0] for e in accepted]}); must be exactly 1")
+                        continue
+                    name, pos, kw, _ = accepted[0]
+                    has_details = any(k == "details" for k, _ in kw)
+                    pos_ok = len(pos) == len(want_pos) and all(w == "?" or w == p for w, p in zip(want_pos, pos))
+                    if name != "d." + want_m or has_details != want_details or not pos_ok or (has_details and dict(kw).get("details") != D_):
+                        problems.add(f"delivers {name[2:]}({', '.join(map(repr, pos))}{', details=...' if has_details else ''}); documented: {want_m}"
+                                     f"({', '.join('...' if w == '?' else repr(w) for w in want_pos)}{', details=details' if want_details else ''})")
+                    if any(not any(k == "details" for k, _ in e[2]) for e in rejected):
+                        problems.add("a delivery without details= is rejected")
+                if n_ret == 0:
+                    problems.add("no returning path")
+                rule = "R-DEGRADE-TABLE" if (level == "py26" and want_m != m) else "R-ETOD-FALLBACK"
+                ctx.check(rule, f"{m}({'details' if mode == 'details' else 'err/reason'}) to a {level} result -> exactly one {want_m}", f, not problems,
+                          f"ExtendedToOriginalDecorator.{m} with {'details=' if mode == 'details' else 'the plain argument'} against a {level} result: " + "; ".join(sorted(problems)),
+                          examined=len(res), construct=f"{REAL}:ExtendedToOriginalDecorator.{m}::{level}-{mode}")
+
+
 def run(ctx):
     ctx.rule("R-FORWARD-ONCE", "each adapter method forwards to the same-named target method exactly once with all arguments")
     ctx.rule("R-ETOD-FALLBACK", "ExtendedToOriginalDecorator: exactly one accepted delivery per outcome call")
@@ -283,18 +377,13 @@ def run(ctx):
         ctx.check("R-FORWARD-ONCE", f"MultiTestResult.{m} -> _dispatch('{m}')", f, ok, msg, examined=exp.size,
                   construct=f"{REAL}:MultiTestResult.{m}::dispatch")
     d = own_method(ctx, REAL, "MultiTestResult", "_dispatch")
-    gens = [n for n in ast.walk(d) if isinstance(n, (ast.GeneratorExp, ast.ListComp))]
-    ok = False
-    if len(gens) == 1:
-        g = gens[0]
-        gen = g.generators[0]
-        strict = isinstance(g, ast.ListComp) or (isinstance(getattr(g, "_parent", None), ast.Call) and dotted(g._parent.func) in ("tuple", "list"))
-        elt = g.elt
-        call_ok = (isinstance(elt, ast.Call) and isinstance(elt.func, ast.Call) and dotted(elt.func.func) == "getattr"
-                   and dotted(elt.func.args[0]) == dotted(gen.target) and dotted(elt.func.args[1]) == d.args.args[1].arg
-                   and any(isinstance(a, ast.Starred) and dotted(a.value) == d.args.vararg.arg for a in elt.args)
-                   and any(k.arg is None and dotted(k.value) == d.args.kwarg.arg for k in elt.keywords))
-        ok = strict and call_ok and dotted(gen.iter) == "self._results" and not gen.ifs and len(g.generators) == 1
+    from .. import effects
+    mtr_cls = classes.get(REAL, "MultiTestResult")
+    dom_ = effects.EffectDomain(classes, attrs={"self._results": ("tuple", ("wobj", "w0"), ("wobj", "w1"))})
+    res_ = effects.run(ctx, dom_, d, mtr_cls, {"message": ("const", "anyMethod"), (d.args.vararg.arg if d.args.vararg else "args"): ("tuple", ("arg", 0)),
+                                              (d.args.kwarg.arg if d.args.kwarg else "kwargs"): ("kwdict", (("k", ("arg", "k")),))})
+    want_calls = [("w0.anyMethod", (("arg", 0),), (("k", ("arg", "k")),), "ok"), ("w1.anyMethod", (("arg", 0),), (("k", ("arg", "k")),), "ok")]
+    ok = bool(res_) and all(r.kind == "val" and effects.calls(r) == want_calls and r.value == ("tuple", ("ret", "w0", "anyMethod"), ("ret", "w1", "anyMethod")) for r in res_)
     ctx.check("R-FORWARD-ONCE", "MultiTestResult._dispatch calls the message on every wrapped result, eagerly, with all arguments", d, ok,
               "_dispatch must build tuple/list of getattr(result, message)(*args, **kwargs) for every result in self._results",
               construct=f"{REAL}:MultiTestResult._dispatch::strict-all")
@@ -306,113 +395,22 @@ def run(ctx):
     ctx.floor("R-FORWARD-ONCE", 34)
 
     # ------------------------------------------------------------------ R-ETOD-FALLBACK / R-DEGRADE-TABLE
+    # decided on abstract runs of each outcome method against three kinds of decorated result: one that takes
+    # details= (extended), one that has every method but rejects details= with TypeError (2.7-style) and one that
+    # also lacks addSkip / addExpectedFailure / addUnexpectedSuccess (2.6-style)
     etod = classes.get(REAL, "ExtendedToOriginalDecorator")
-    reach = {}
-    for m in OUTCOMES:
-        f = etod.methods.get(m)
-        if f is None:
-            raise AnalysisError(f"anchor vanished: ExtendedToOriginalDecorator.{m}")
-        # locals bound to target methods via getattr(self.decorated, "X", None)
-        bound = {}
-        for n in walk_shallow(f, include_self=False):
-            if isinstance(n, ast.Assign) and isinstance(n.value, ast.Call) and dotted(n.value.func) == "getattr" and len(n.value.args) >= 2 and dotted(n.value.args[0]) == "self.decorated":
-                name = str_const(n.value.args[1])
-                if name and isinstance(n.targets[0], ast.Name):
-                    bound[n.targets[0].id] = name
-        direct = set()
-        via_self = set()
-
-        def delivery_target(c):
-            d_ = dotted(c.func)
-            if d_ and d_.startswith("self.decorated.") and d_.split(".")[2] in OUTCOMES:
-                return ("target", d_.split(".")[2])
-            if isinstance(c.func, ast.Name) and c.func.id in bound and bound[c.func.id] in OUTCOMES:
-                return ("target", bound[c.func.id])
-            if d_ and d_.startswith("self.") and d_.split(".")[1] in OUTCOMES and len(d_.split(".")) == 2:
-                return ("self", d_.split(".")[1])
-            return None
-
-        cfg, exp, hit = counter_exploration(ctx, f, lambda c: delivery_target(c) is not None)
-        for n in hit:
-            for c in node_calls(cfg.nodes[n]):
-                t = delivery_target(c)
-                if t:
-                    (direct if t[0] == "target" else via_self).add(t[1])
-        reach[m] = (direct, via_self)
-        ret_counts = exp.states_at(cfg.exit_return)
-        raise_counts = exp.states_at(cfg.exit_raise)
-        bad_pair = None
-        msg = ""
-        if ret_counts != {1}:
-            wrong = [s for s in ret_counts if s != 1]
-            bad_pair = (cfg.exit_return, wrong[0]) if wrong else None
-            msg = f"a returning path through ExtendedToOriginalDecorator.{m} makes {wrong[0] if wrong else '?'} accepted deliveries to the target (must be exactly 1)"
-        elif 2 in raise_counts:
-            bad_pair = (cfg.exit_raise, 2)
-            msg = f"a raising path through {m} has already delivered twice"
-        ctx.check("R-ETOD-FALLBACK", f"ExtendedToOriginalDecorator.{m}: exactly one accepted delivery", f, bad_pair is None and ret_counts == {1}, msg,
-                  examined=exp.size, path=exp.describe(bad_pair) if bad_pair else None, construct=f"{REAL}:ExtendedToOriginalDecorator.{m}::one-delivery")
-        # every first-attempt call with details= sits under an `except TypeError`
-        for n in hit:
-            for c in node_calls(cfg.nodes[n]):
-                if delivery_target(c) and any(k.arg == "details" for k in c.keywords):
-                    p = getattr(c, "_parent", None)
-                    guarded = False
-                    q = c
-                    while q is not None and q is not f:
-                        par = getattr(q, "_parent", None)
-                        if isinstance(par, ast.Try) and any(q is s or any(q is w for w in ast.walk(s)) for s in par.body):
-                            if any("TypeError" in norm(h.type) for h in par.handlers if h.type is not None):
-                                guarded = True
-                        q = par
-                    ctx.check("R-ETOD-FALLBACK", f"{m}: details= attempt falls back on TypeError", c, guarded,
-                              "the extended call is not guarded by `except TypeError`: an old-style target would make the adapter raise instead of degrading")
-        # the converted value is what the fallback passes
-        conv = {}
-        for h in [x for x in ast.walk(f) if isinstance(x, ast.ExceptHandler) and x.type is not None and "TypeError" in norm(x.type)]:
-            for s in walk_shallow(h):
-                if isinstance(s, ast.Assign) and isinstance(s.targets[0], ast.Name):
-                    conv[s.targets[0].id] = s
-        if m in ("addError", "addFailure", "addExpectedFailure", "addSkip"):
-            want = "reason" if m == "addSkip" else "err"
-            fallback = []
-            for n in hit:
-                for c in node_calls(cfg.nodes[n]):
-                    if delivery_target(c) == ("target", m) and not c.keywords and len(c.args) == 2:
-                        fallback.append(c)
-            ok = want in conv and len(fallback) == 1 and dotted(fallback[0].args[0]) == "test" and dotted(fallback[0].args[1]) == want
-            ctx.check("R-ETOD-FALLBACK", f"{m}: fallback passes the converted {want}", f, ok,
-                      f"the fallback call does not pass the value converted from the details ({want})", construct=f"{REAL}:ExtendedToOriginalDecorator.{m}::converted")
-            if want == "err" and want in conv:
-                ok = isinstance(conv[want].value, ast.Call) and dotted(conv[want].value.func) == "self._details_to_exc_info" and dotted(conv[want].value.args[0]) == "details"
-                ctx.check("R-ETOD-FALLBACK", f"{m}: details converted by _details_to_exc_info", conv[want], ok, "details are not converted with _details_to_exc_info(details)")
+    check_etod_semantics(ctx, etod)
     ctx.floor("R-ETOD-FALLBACK", 14)
-    # degradation closure
-    def closure(m, seen=()):
-        direct, via = reach[m]
-        out = set(direct)
-        for v in via:
-            if v not in seen and v in reach:
-                out |= closure(v, seen + (m,))
-        return out
-    FAILING = {"addError", "addFailure", "addUnexpectedSuccess"}
-    PASSING_TARGETS = {"addSuccess", "addSkip", "addExpectedFailure"}
-    for m in OUTCOMES:
-        got = closure(m)
-        ok = got == DEGRADE[m]
-        msg = f"ExtendedToOriginalDecorator.{m} can reach target methods {sorted(got)}; documented degradation is {sorted(DEGRADE[m])}"
-        if m in FAILING and got & PASSING_TARGETS:
-            msg += " -- a failing outcome can become a passing one"
-        ctx.check("R-DEGRADE-TABLE", f"{m} -> {sorted(got)}", etod.methods[m], ok, msg, construct=f"{REAL}:ExtendedToOriginalDecorator.{m}::degrade")
-    # missing-method probes are for exactly the methods old results lack
-    for m, probe in (("addSkip", "addSkip"), ("addExpectedFailure", "addExpectedFailure"), ("addUnexpectedSuccess", "addUnexpectedSuccess")):
-        f = etod.methods[m]
-        probes = [c for c in walk_shallow(f, include_self=False) if isinstance(c, ast.Call) and dotted(c.func) == "getattr" and len(c.args) == 3 and dotted(c.args[0]) == "self.decorated" and str_const(c.args[1]) == probe]
-        ctx.check("R-DEGRADE-TABLE", f"{m} probes the target for {probe}", f, len(probes) == 1, f"{m} no longer probes the target for a missing {probe}",
-                  construct=f"{REAL}:ExtendedToOriginalDecorator.{m}::probe")
     # _details_to_exc_info builds the synthetic exception from the details text
     dte = own_method(ctx, REAL, "ExtendedToOriginalDecorator", "_details_to_exc_info")
-    ok = any(isinstance(c, ast.Call) and dotted(c.func) == "_StringException" and c.args and isinstance(c.args[0], ast.Call) and dotted(c.args[0].func) == "_details_to_str" and dotted(c.args[0].args[0]) == "details" for c in ast.walk(dte))
+    dte_defs = {n.targets[0].id: n.value for n in walk_shallow(dte, include_self=False) if isinstance(n, ast.Assign) and len(n.targets) == 1 and isinstance(n.targets[0], ast.Name)}
+
+    def is_details_text(x):
+        if isinstance(x, ast.Name) and x.id in dte_defs:
+            x = dte_defs[x.id]
+        return isinstance(x, ast.Call) and dotted(x.func) == "_details_to_str" and x.args and dotted(x.args[0]) == "details"
+
+    ok = any(isinstance(c, ast.Call) and dotted(c.func) == "_StringException" and c.args and is_details_text(c.args[0]) for c in ast.walk(dte))
     ctx.check("R-DEGRADE-TABLE", "synthetic exception is built from the details text", dte, ok, "_details_to_exc_info no longer wraps _details_to_str(details)",
               construct=f"{REAL}:ExtendedToOriginalDecorator._details_to_exc_info::text")
     # start/stop forwarding of ETOD
